@@ -70,3 +70,31 @@ func TestVerifC01(t *testing.T) {
 		t.Fatalf("harness: %v", err)
 	}
 }
+
+// TestVerifC01Window: verified reads through the REAL directory cache with a small memory LRU /
+// descriptor LRU while a second file handle caches more chunks than the LRU holds inside the window
+// between cache.Get / cache.Add and the use of what they returned (internal/verifc01/window.go).
+func TestVerifC01Window(t *testing.T) {
+	rnd := verifutil.NewRand(verifutil.Seed())
+	out := verifutil.OpenOut()
+	defer out.Close()
+	cfg := verifc01.Config{
+		Stack: verifc01.Stack{
+			Name:  "mem",
+			Store: memorymetadata.NewReader,
+			NewReader: func(mr metadata.Reader, c cache.BlobCache) (verifc01.VR, error) {
+				vr, err := NewReader(mr, c, digest.FromString("verif-c01"))
+				if err != nil {
+					return nil, err
+				}
+				return &verifC01VR{vr}, nil
+			},
+		},
+		N:        verifutil.EnvInt("VERIF_N", 30),
+		Thorough: os.Getenv("VERIF_TIER") == "thorough",
+		Single:   true,
+	}
+	if err := verifc01.RunWindow(out, rnd, cfg); err != nil {
+		t.Fatalf("harness: %v", err)
+	}
+}
